@@ -12,7 +12,7 @@ def _dump_chunk(items):
     from . import drive, graph_proj
     out = []
     for it in items:
-        d = drive.dump(it["sql"], it["dialect"], metadata=it["metadata"], pre_calls=it.get("pre_calls", ()))
+        d = drive.dump(it["sql"], it["dialect"], metadata=it["metadata"], pre_calls=it.get("pre_calls", ()), served=it.get("served", False))
         p = graph_proj.project(d)
         extra = None
         if p is not None:
@@ -40,6 +40,8 @@ def run(chk, which, items):
            ({"exclude_path_ending_in_subquery": False, "exclude_subquery_columns": True}, "cytoscape_table")]
     for i, it in enumerate(items):
         it["pre_calls"] = PRE[(i + chk.seed) % len(PRE)]
+        # C18: every fourth result's exports are the ones the web application serves for the same text (POST /lineage)
+        it["served"] = which == "C18" and i % 4 == 1 and it["dialect"] != "non-validating"
     pool = mp.Pool(16)
     try:
         res = pool.map(_dump_chunk, chunks(items, 64))
@@ -70,7 +72,7 @@ def run(chk, which, items):
         sig = {"module": "Graph", "clause": verdict, "features": features.features(it["sql"], it["dialect"]) or ["none"],
                "input": it["origin"] if it["origin"].startswith("tpcds/") else features.sql_id(it["sql"], it["dialect"]),
                "dup_cause": extra["dup_cause"]}
-        chk.reject(sig, {"clause": verdict, "sql": it["sql"], "dialect": it["dialect"], "metadata": it["metadata"], "origin": it["origin"], "accessors_called_before": [str(x) for x in it.get("pre_calls", ())],
+        chk.reject(sig, {"clause": verdict, "sql": it["sql"], "dialect": it["dialect"], "metadata": it["metadata"], "origin": it["origin"], "accessors_called_before": [str(x) for x in it.get("pre_calls", ())], "exports_served_by_the_web_application": bool(it.get("served")),
                          "dup_ids": extra["dup_ids"], "how": "harness.drive.dump -> harness.graph_proj.project -> Trace_Graph (%s clauses)" % which})
     if traces:
         big = max(traces, key=lambda t: len(t["cnodes"]))
